@@ -153,6 +153,40 @@ def r2(ctx):
         conv = {norm(s.targets[0]): norm(s.value) for s in body if isinstance(s, ast.Assign)}
         okp = okp and conv.get(Ty) == "PacketType(%s)" % Ty and conv.get(S) == "SeqNum(%s)" % S
         ctx.check(okp, "C09.R2", fb, "multi: PendingMessage(SeqNum(seq), PacketType(type), body)", witness=[norm(c) for c in pmn])
+    # decode-side length guards must not refuse anything the encoder produces: a raise guarded by a comparison of a remaining
+    # length with a constant may only cover lengths below the minimum the writer emits at that point (a for the single form,
+    # b for each message of the multi form - an empty last message leaves exactly b bytes)
+    mins = {}
+    if sb is not None:
+        mins[sb[0]] = b           # multi-message cursor
+    sb1 = slice_bounds(u1.args[0])
+    if sb1 is not None:
+        mins[sb1[0]] = a          # single-message body
+    n_guards = 0
+    for g in walk_own(fb.node):
+        if isinstance(g, ast.If) and any(isinstance(x, ast.Raise) for x in g.body) and isinstance(g.test, ast.Compare) and len(g.test.ops) == 1:
+            l, r, op = g.test.left, g.test.comparators[0], g.test.ops[0]
+            flip = {ast.Lt: ast.Gt, ast.LtE: ast.GtE, ast.Gt: ast.Lt, ast.GtE: ast.LtE, ast.Eq: ast.Eq, ast.NotEq: ast.NotEq}
+            if not (isinstance(l, ast.Call) and norm(l.func) == "len") and isinstance(r, ast.Call) and norm(r.func) == "len":
+                l, r, op = r, l, flip[type(op)]()
+            if isinstance(l, ast.Call) and norm(l.func) == "len" and norm(l.args[0]) in mins:
+                c = fold_int(ctx, fb, r)
+                if c is None:
+                    continue
+                n_guards += 1
+                need = mins[norm(l.args[0])]
+                # largest length that is refused
+                if isinstance(op, ast.Lt):
+                    top = c - 1
+                elif isinstance(op, ast.LtE):
+                    top = c
+                elif isinstance(op, ast.Eq):
+                    top = c
+                else:
+                    top = None      # refuses arbitrarily long remainders
+                ok = top is not None and top < need
+                ctx.check(ok, "C09.R2", fb, g.test, "a decode guard refuses only remainders shorter than the %d bytes the writer always emits there" % need,
+                          witness={"refused_up_to": top if top is not None else "unbounded", "writer_minimum": need}, line=g.lineno)
     # which framing for which count - both sides
     crt = sorted(norm(n.test) for n in walk_own(cr.node) if isinstance(n, ast.If))
     fbt = sorted(norm(n.test) for n in walk_own(fb.node) if isinstance(n, ast.If) and isinstance(n.test, ast.Compare) and norm(n.test.left).endswith(".count"))
